@@ -1,0 +1,19 @@
+//go:build verif
+
+// Verification hook (build tag "verif" only): read-only view of the number of tasks waiting
+// in a queue, used by the C15 harness as a quiescence signal (no sleeps). No behaviour change;
+// absent from normal builds.
+
+package queue
+
+// VerifC15Pending returns the number of tasks that are queued and not yet taken by the worker.
+// It returns -1 for queue implementations other than the plain FIFO queue.
+func VerifC15Pending(q Instance) int {
+	qi, ok := q.(*queueImpl)
+	if !ok {
+		return -1
+	}
+	qi.cond.L.Lock()
+	defer qi.cond.L.Unlock()
+	return len(qi.tasks)
+}
